@@ -379,7 +379,13 @@ CHECK_DEADLOCK FALSE
                 for k in range(1, total + 1):
                     pre, ch, _ = line_preempt_at(k)
                     self.one(scen, ("line-at", k), ch, preempt=pre)
-                self.chk.coverage.setdefault("line_systematic", {})[name] = {"traced_lines": total, "executions": total}
+                pre, ch, st = line_preempt_at(-1, base=round_robin)
+                self.one(scen, ("line-count-rr",), ch, preempt=pre)
+                total_rr = st["n"]
+                for k in range(1, total_rr + 1):
+                    pre, ch, _ = line_preempt_at(k, base=round_robin)
+                    self.one(scen, ("line-at-rr", k), ch, preempt=pre)
+                self.chk.coverage.setdefault("line_systematic", {})[name] = {"traced_lines": total, "executions": total + total_rr, "base_policies": ["sticky", "round-robin"]}
             for n in range(30 if quick else 500):
                 s = self.rng.randrange(1 << 30)
                 rng = random.Random(s)
@@ -387,9 +393,15 @@ CHECK_DEADLOCK FALSE
                 self.one(scen, ("lines", p, s), lambda sc, r, rng=rng: rng.choice(r), preempt=lambda sc, rng=rng, p=p: rng.random() < p)
 
 
-def line_preempt_at(k):
+def round_robin(s, r):
+    return min(r, key=lambda n: (sum(1 for x in s.choices[-len(s.threads):] if x == n), n))
+
+
+def line_preempt_at(k, base=None):
     """(preempt, choose): the thread that executes the k-th traced source line is pre-empted right there, and
-    another runnable thread is chosen once; everything else is the sticky policy."""
+    another runnable thread is chosen once; everything else is the base policy (sticky, or round robin: the
+    threads alternate at every lock / network operation, so that one of them is WAITING while the other works)."""
+    base = base or sticky
     state = {"n": 0, "fire": False}
 
     def pre(sc):
@@ -404,9 +416,11 @@ def line_preempt_at(k):
             state["fire"] = False
             last = s.choices[-1] if s.choices else None
             others = [n for n in runnable if n != last]
+            state["fired"] = True
             if others:
                 return others[0]
-        return sticky(s, runnable)
+        # (after the pre-emption the thread that overtook runs on until it blocks: sticky)
+        return (sticky if state.get("fired") else base)(s, runnable)
 
     return pre, choose, state
 
